@@ -363,6 +363,17 @@ theorem C14_refused_short_unchanged (c : Ctx) (name : List Nat) (alias : Nat) (h
 /-- an option without short name that is refused changes nothing either -/
 theorem C14_refused_noalias_unchanged (c : Ctx) : c.afterRefused 0 = c := by simp [Ctx.afterRefused]
 
+/-- adding the options of another context one by one: an option that is accepted is inserted exactly like a single `add`, and the merge goes on
+    from the context that single add yields -/
+theorem C14_merge_step (c c' : Ctx) (o : List Nat × Nat × Nat) (r : List (List Nat × Nat × Nat)) (h : c.addOption o.1 o.2.1 = some c') :
+    c.addAll (o :: r) = c'.addAll r := by
+  simp [Ctx.addAll, h]
+
+/-- a refused merge stops at the first option that is refused; the options before it stay -/
+theorem C14_merge_refused (c : Ctx) (o : List Nat × Nat × Nat) (r : List (List Nat × Nat × Nat)) (h : c.addOption o.1 o.2.1 = none) :
+    c.addAll (o :: r) = (c.afterRefused o.2.1, false) := by
+  simp [Ctx.addAll, h]
+
 /-! non-vacuity: names with bytes ≥ 0x7f after a shared prefix -/
 def exIndex : Index := [([45, 102], 0), ([102, 111, 111], 0), ([102, 111, 111, 45, 98], 1), ([102, 111, 195, 164], 2)]
 example : Sorted exIndex := by simp [Sorted, exIndex, lexLt]
